@@ -3,6 +3,7 @@
 Donor / receptor PAIRS that are NOT the same domain, built rank by rank from the op lines (the generator partitions both
 grids: a rank holds every cell that touches one of its nodes, with the ghost nodes that needs):
   nested     receptor box strictly inside the donor box
+  shell      a receptor corner 1e-9 .. 8 % past the one-ring of the nearest donor corner, inside the donor (always generated)
   offset     receptor shifted by 0.3 .. 1.3 donor cells: its corners fall inside, ON the boundary of, and JUST OUTSIDE the
              one-ring of the nearest donor corner (the shell in which a seed has min weight in (-0.1, -1e-12))
   same       same domain, different resolution (corners coincide: weight 1,0,0,0 seeds)
@@ -260,6 +261,28 @@ def pair(rng, twod, kind):
         else:
             r = box3(rng, rn, rorg, rsize, jitter=rng.choice([0.0, 0.2]))
         return d, r
+    if kind == 'shell':
+        # a receptor corner JUST OUTSIDE the one-ring of the nearest donor corner, well inside the donor domain
+        delta = rng.choice([1e-9, 1e-3, 0.03, 0.08])
+        h = rng.choice([0.25, 0.2, 0.5])
+        if twod:
+            # donor corner (0,0) is touched by ONE triangle (0,0) (h,0) (0,h): weights of (a h, b h) are (1-a-b, a, b)
+            dn = [rng.randint(3, 5), rng.randint(3, 5)]
+            d = box2(rng, dn, [0.0, 0.0], [dn[0] * h, dn[1] * h], diag=rng.choice(['anti', 'corner1']))
+            a = rng.uniform(0.2, 0.8)
+            b = 1.0 + delta - a
+            r = box2(rng, [rng.randint(2, 3), rng.randint(2, 3)], [a * h, b * h], [1.3 * h, 1.1 * h])
+            return d, r
+        # Kuhn tets: the donor corner (Lx,0,0) is touched by the two tets with x the largest local coordinate; the point
+        # (Lx - a h, b h, c h) leaves them through b = 1 - a
+        dn = [rng.randint(2, 3) for _ in range(3)]
+        d = box3(rng, dn, [0.0, 0.0, 0.0], [dn[c] * h for c in range(3)])
+        a = rng.uniform(0.2, 0.6)
+        b = 1.0 - a + delta
+        c = rng.uniform(0.05, 0.9) * (1.0 - a)
+        sx, sy, sz = 1.2 * h, 0.9 * h, 0.8 * h
+        r = box3(rng, [rng.randint(1, 2) for _ in range(3)], [dn[0] * h - a * h - sx, b * h, c * h], [sx, sy, sz])
+        return d, r
     if kind == 'big':
         # many receptor vertices per rank: more than 10 agents are alive at once (the agent array grows)
         dn, rn = ([5, 4], [9, 8]) if twod else ([2, 2, 2], [4, 3, 3])
@@ -300,7 +323,8 @@ def pair(rng, twod, kind):
     raise ValueError(kind)
 
 
-KINDS = ['nested', 'offset', 'offset', 'offset', 'same', 'round', 'roundbox', 'stretched', 'partial', 'far', 'strip', 'big']
+KINDS = ['nested', 'shell', 'offset', 'offset', 'offset', 'same', 'round', 'roundbox', 'stretched', 'partial', 'far', 'strip',
+         'big']
 
 
 def session(rng, np, twod, kind):
@@ -535,7 +559,7 @@ LOCATE_MPI3.ops_file = True
 
 
 # ------------------------------------------------------------------------------------------------ end to end: `ref interpolate`
-CLI_KINDS = ['nested', 'offset', 'offset', 'offset', 'same', 'stretched', 'round', 'big', 'partial']
+CLI_KINDS = ['nested', 'shell', 'offset', 'offset', 'offset', 'same', 'stretched', 'round', 'big', 'partial']
 
 
 def off_fields(d):
